@@ -17,7 +17,7 @@ RULE = ('Part order: Hypothesis-generated netlists with open input pins (incl. p
         'includes but does not pass through non-origin state elements, nothing outside the unrestricted backward reachability, readers before drivers. Part locs: port/state name tables from a '
         'naming model (index styles [i], _i_, _i, two dimensions, gaps, indices >= 10, shared prefixes, scalars) -> io_locs/s_locs(prefix) equal '
         'the table computed from the model (int, LSB..MSB list, nested lists sorted by base name, None). non-trivial: order: a node with an open pin '
-        'next to a connected one; locs: an index >= 10 or two dimensions; distinct by SHA-1 of the case.')
+        'next to a connected one; the look-ups are repeated after the ports were re-ordered in place; locs: an index >= 10 or two dimensions; distinct by SHA-1 of the case.')
 ASSUMPTIONS = ['every bus has a fixed number of dimensions and no scalar shares its base name with a bus (otherwise the documented lookup is ambiguous)',
                'base names are letters only and end in a letter']
 
@@ -232,12 +232,24 @@ def prop_locs(case):
         return None if isinstance(l, list) and len(l) == 0 else l
 
     hi = False
-    for prefix in prefixes:
-        for fn, seq in ((c.io_locs, list(c.io_nodes)), (c.s_locs, c.s_nodes)):
-            got = fn(prefix)
-            exp = expected(prefix, seq)
-            if got != exp:
-                raise Violation(f'{fn.__name__}({prefix!r}) = {got}, expected {exp} for names {[n.name for n in seq]}')
+
+    def look(when):
+        for prefix in prefixes:
+            for fn, seq in ((c.io_locs, list(c.io_nodes)), (c.s_locs, c.s_nodes)):
+                got = fn(prefix)
+                exp = expected(prefix, seq)
+                if got != exp:
+                    raise Violation(f'{when}{fn.__name__}({prefix!r}) = {got}, expected {exp} for names {[n.name for n in seq]}')
+
+    look('')
+    # positions are positions in the *current* lists: re-order the ports in place (node and port counts unchanged) and look again
+    nio = len(c.io_nodes)
+    if nio >= 2:
+        rot = 1 + case['shuffle'] % (nio - 1)
+        ports = list(c.io_nodes)
+        for i in range(nio):
+            c.io_nodes[i] = ports[(i + rot) % nio]
+        look('after re-ordering the ports in place: ')
     hi = any(sg['dims'] == 2 or any(i[0] >= 10 for i in sg['idx'] if i) for sg in case['sigs'])
     labels = ['two_dims' if any(sg['dims'] == 2 for sg in case['sigs']) else 'one_dim']
     if any(any(i and i[0] >= 10 for i in sg['idx']) for sg in case['sigs']): labels.append('index>=10')
